@@ -7,6 +7,8 @@ multi-element collection, strict decoding, no datetime / timed text to date, ext
 P_Group for no_explicit_cast, and compares the verdict matrix with Convert.tla (the converters as transcribed, M).
 """
 import collections
+import collections.abc
+import types
 import datetime
 import decimal
 import enum
@@ -62,6 +64,8 @@ def facts(x, depth=0):
             fx["hastime"] = True
     if isinstance(x, datetime.datetime) and x.time() != datetime.time(0, 0):
         fx["hastime"] = True
+    if isinstance(x, (list, tuple, set, frozenset)) and len(x) == 1 and isinstance(list(x)[0], collections.abc.Mapping) and len(list(x)[0]) > 1:
+        fx["mapkeys"] = len(list(x)[0])          # a sequence holding one mapping of several keys
     if isinstance(x, (list, tuple)) and depth < 2:
         fx["items"] = [facts(e, depth + 1) for e in x]
     elif isinstance(x, (set, frozenset)) and depth < 2:
@@ -79,6 +83,7 @@ SOURCES = [None, True, False, 0, 1, 2, -3, 10 ** 12, 0.0, 1.0, 2.5, -0.25, 3.0, 
            b"tr\xffue", b"\xfffalse", b"1\xfe", b"\x80no", b"2\xff.5", b"nu\xffll", b"\xff7",
            [], [1], ["7"], [1, 2], ["a", "b"], [[1]], [None], (), (1,), (1, 2), (1, 2, 3), {1}, {1, 2}, frozenset({1}), collections.deque([1, 2]),
            {}, {"a": 1}, {"a": 1, "b": 2}, {1: 2}, [("a", 1)], [{"a": 1}], [{"a": 1}, {"b": 2}],
+           [{"a": 1, "b": 2}], [types.MappingProxyType({"a": 1, "b": 2})], (collections.ChainMap({"a": 1}, {"b": 2}),), [collections.UserDict(a=1, b=2)],
            datetime.datetime(2022, 3, 4, 10, 11, 12), datetime.datetime(2022, 3, 4), datetime.date(2022, 3, 4), datetime.time(10, 11, 12),
            datetime.timedelta(days=1, seconds=5), uuid.UUID("123e4567-e89b-12d3-a456-426614174000"), Color.red, MyInt(5), object,
            "INST1", "INST2", "INST3"]
@@ -339,6 +344,8 @@ def main():
         c = byid[t[1]]
         items = "[%s]" % ",".join(sorted({i["k"] for i in c["x"]["items"]})) if c["x"]["items"] else ""
         key = "C12|%s@%s|%s->%s" % (t[2], t[3], c["x"]["k"] + items + ("/" + c["fx"]["word"] if c["fx"]["word"] else "/numlit" if c["fx"]["numlit"] else ""), c["T"])
+        if c["fx"].get("mapkeys") and t[2] == "Restrict":
+            key = "C12|Restrict|sequence-holding-one-mapping-read-as-pairs"
         ck.violation(key, t[2], {k: c[k] for k in ("repr", "T", "out", "fx", "x")})
     dv = r.tagged("DIV")
     if dv:
